@@ -528,6 +528,15 @@ func (s *InterceptableSwitch) interceptForward(packet *htlcPacket,
 				s.cltvRejectDelta),
 		}
 
+		// Ignore replays of htlcs that are already held. The
+		// interceptor has been told the height at which a held htlc is
+		// failed back automatically and may still resolve it until
+		// then, so a replay must not be failed here merely because the
+		// interception window has closed in the meantime.
+		if s.heldHtlcSet.exists(packet.inKey()) {
+			return true, nil
+		}
+
 		// Handle forwards that are too close to expiry.
 		handled, err := s.handleExpired(intercepted)
 		if err != nil {
